@@ -552,7 +552,7 @@ double reb_M_to_E(double e, double M){
 		return E;
 	}
 	else{
-		E = M/fabs(M)*log(2.*fabs(M)/e + 1.8);
+		E = copysign(log(2.*fabs(M)/e + 1.8), M); // M/fabs(M) would be NaN for M=0
 
 		double F = E - e*sinh(E) + M;
 		for(int i=0; i<100; i++){
